@@ -629,4 +629,360 @@ theorem cursor_le_len_editor_fresh (ops : List (Op L)) (e e' : Editor D L) (h0 :
 
 end EditorLevel
 
+section EditorKeys
+variable {D L : Type} (env : Env D L)
+
+theorem dispatch_entering_eq {e : Editor D L} (ev : KeyEvent) (hs : e.state = .entering) :
+    dispatch env e ev =
+      (enteringNext env (preamble e.shared) ev).map fun (sh', t) => applyTrans sh' .entering t := by
+  unfold dispatch; rw [hs]
+
+theorem dispatch_syllable_eq {e : Editor D L} (ev : KeyEvent) (hs : e.state = .enteringSyllable) :
+    dispatch env e ev =
+      (enteringSyllableNext env (preamble e.shared) ev).map fun (sh', t) => applyTrans sh' .enteringSyllable t := by
+  unfold dispatch; rw [hs]
+
+theorem eraseIdx_pred {α : Type} (s : List α) (c : Nat) (h : 0 < c) :
+    s.take (c - 1) ++ s.drop c = s.eraseIdx (c - 1) := by
+  rw [List.eraseIdx_eq_take_drop_succ]; congr 2; omega
+
+/-- **Backspace** in `Entering`: ignored on an empty buffer; otherwise absorbed, and exactly the
+    symbol before the cursor is removed (nothing at cursor 0) -/
+theorem backspace_key {e : Editor D L} {ev : KeyEvent} {sh : Shared D L} {st : St}
+    (hs : e.state = .entering) (hk : ev.code = KC.backspace) (h : dispatch env e ev = .ok (sh, st)) :
+    st = .entering ∧
+    (e.shared.com.isEmpty = true → sh.last = .ignore ∧ sh.com = e.shared.com) ∧
+    (e.shared.com.isEmpty = false → sh.last = .absorb ∧
+      (e.shared.com.cursor = 0 → sh.com = e.shared.com) ∧
+      (0 < e.shared.com.cursor →
+        sh.com.symbols = e.shared.com.symbols.eraseIdx (e.shared.com.cursor - 1) ∧
+        sh.com.cursor = e.shared.com.cursor - 1 ∧ sh.com.stack = e.shared.com.stack)) := by
+  rw [dispatch_entering_eq env ev hs, enteringNext_backspace env hk] at h
+  obtain ⟨⟨sh', t⟩, hr, hx⟩ := map_ok h
+  unfold enteringBackspace at hr
+  split at hr
+  · next he =>
+    injection hr with hr; injection hr with h1 h2; subst h1 h2
+    simp only [applyTrans] at hx; injection hx with h1 h2; subst h1 h2
+    exact ⟨rfl, fun _ => ⟨rfl, rfl⟩, fun hne => by rw [show (preamble e.shared).com = e.shared.com from rfl] at he; simp [hne] at he⟩
+  · next he =>
+    obtain ⟨c, hc, hk⟩ := withCom_ok hr
+    injection hk with hk; injection hk with h1 h2; subst h1 h2
+    simp only [applyTrans] at hx; injection hx with h1 h2; subst h1 h2
+    have hf := backspace_frame _ _ hc
+    refine ⟨rfl, fun he' => ?_, fun _ => ⟨rfl, fun h0 => hf.1 h0, fun hp => ?_⟩⟩
+    · rw [show (preamble e.shared).com = e.shared.com from rfl] at he; exact absurd he' he
+    · obtain ⟨a, b, c', _⟩ := hf.2 hp
+      exact ⟨by rw [← eraseIdx_pred _ _ hp]; exact a, b, c'⟩
+
+/-- **Delete** in `Entering`: ignored at the end of the buffer; otherwise absorbed, and exactly the
+    symbol at the cursor is removed, the cursor stays -/
+theorem delete_key {e : Editor D L} {ev : KeyEvent} {sh : Shared D L} {st : St}
+    (hs : e.state = .entering) (hk : ev.code = KC.del) (h : dispatch env e ev = .ok (sh, st)) :
+    st = .entering ∧
+    (e.shared.com.isEob = true → sh.last = .ignore ∧ sh.com = e.shared.com) ∧
+    (e.shared.com.isEob = false → sh.last = .absorb ∧
+      sh.com.symbols = e.shared.com.symbols.eraseIdx e.shared.com.cursor ∧
+      sh.com.cursor = e.shared.com.cursor ∧ sh.com.stack = e.shared.com.stack) := by
+  rw [dispatch_entering_eq env ev hs, enteringNext_del env hk] at h
+  obtain ⟨⟨sh', t⟩, hr, hx⟩ := map_ok h
+  unfold enteringDel at hr
+  split at hr
+  · next he =>
+    injection hr with hr; injection hr with h1 h2; subst h1 h2
+    simp only [applyTrans] at hx; injection hx with h1 h2; subst h1 h2
+    exact ⟨rfl, fun _ => ⟨rfl, rfl⟩, fun hne => by rw [show (preamble e.shared).com = e.shared.com from rfl] at he; simp [hne] at he⟩
+  · next he =>
+    obtain ⟨c, hc, hk⟩ := withCom_ok hr
+    injection hk with hk; injection hk with h1 h2; subst h1 h2
+    simp only [applyTrans] at hx; injection hx with h1 h2; subst h1 h2
+    obtain ⟨_, a, b, c'⟩ := delete_frame _ _ hc
+    refine ⟨rfl, fun he' => ?_, fun _ => ⟨rfl, ?_, b, c'⟩⟩
+    · rw [show (preamble e.shared).com = e.shared.com from rfl] at he; exact absurd he' he
+    · rw [List.eraseIdx_eq_take_drop_succ]; exact a
+
+/-- the cursor keys of `Entering` -/
+inductive MoveKey (ev : KeyEvent) : Prop
+  | home (h : ev.code = KC.home)
+  | left (h : ev.code = KC.left) (hs : ev.mods.shift = false)
+  | right (h : ev.code = KC.right) (hs : ev.mods.shift = false)
+  | toEnd (h : ev.code = KC.end_ ∨ ev.code = KC.pageUp ∨ ev.code = KC.pageDown)
+
+/-- where a cursor key puts the cursor -/
+def moveTarget (ev : KeyEvent) (c : CompEditor) : Nat :=
+  if ev.code = KC.home then 0
+  else if ev.code = KC.left then c.cursor - 1
+  else if ev.code = KC.right then min (c.cursor + 1) c.len
+  else c.len
+
+/-- **Left / Right / Home / End / PageUp / PageDown** in `Entering` with a non-empty buffer: absorbed;
+    symbols, gaps, selections and saved cursors are untouched; the cursor goes where specified
+    (Left saturates at 0, Right at the end; PageUp and PageDown act like End, as coded) -/
+theorem move_key {e : Editor D L} {ev : KeyEvent} {sh : Shared D L} {st : St}
+    (hs : e.state = .entering) (hne : e.shared.com.isEmpty = false) (hk : MoveKey ev)
+    (h : dispatch env e ev = .ok (sh, st)) :
+    st = .entering ∧ sh.last = .absorb ∧ sh.com.inner = e.shared.com.inner ∧
+    sh.com.stack = e.shared.com.stack ∧ sh.com.cursor = moveTarget ev e.shared.com := by
+  rw [dispatch_entering_eq env ev hs] at h
+  have hm := enteringNext_moves env (sh := preamble e.shared) (ev := ev) hne
+  cases hk with
+  | home hk =>
+    rw [hm.1 hk] at h
+    simp only [Outcome.map, applyTrans] at h; injection h with h; injection h with h1 h2; subst h1 h2
+    exact ⟨rfl, rfl, rfl, rfl, by simp [moveTarget, hk]; rfl⟩
+  | left hk hsh =>
+    rw [hm.2.1 hk hsh] at h
+    simp only [Outcome.map, applyTrans] at h; injection h with h; injection h with h1 h2; subst h1 h2
+    exact ⟨rfl, rfl, rfl, rfl, by simp [moveTarget, hk, KC.left, KC.home]; rfl⟩
+  | right hk hsh =>
+    rw [hm.2.2.1 hk hsh] at h
+    simp only [Outcome.map, applyTrans] at h; injection h with h; injection h with h1 h2; subst h1 h2
+    exact ⟨rfl, rfl, rfl, rfl, by simp [moveTarget, hk, KC.left, KC.home, KC.right]; rfl⟩
+  | toEnd hk =>
+    rw [hm.2.2.2 hk] at h
+    simp only [Outcome.map, applyTrans] at h; injection h with h; injection h with h1 h2; subst h1 h2
+    refine ⟨rfl, rfl, rfl, rfl, ?_⟩
+    rcases hk with hk | hk | hk <;> simp [moveTarget, hk, KC.left, KC.home, KC.right, KC.end_, KC.pageUp, KC.pageDown] <;> rfl
+
+end EditorKeys
+
+section EditorKeys2
+variable {D L : Type} (env : Env D L)
+
+/-- `c'` is `c` with the symbols `xs` inserted exactly at the cursor, the cursor behind them, every
+    other symbol in place, the saved cursors untouched -/
+def InsertedAt (c c' : CompEditor) (xs : List Sym) : Prop :=
+  c'.symbols = c.symbols.take c.cursor ++ xs ++ c.symbols.drop c.cursor ∧
+  c'.cursor = c.cursor + xs.length ∧ c'.stack = c.stack
+
+theorem insertedAt_nil (c : CompEditor) : InsertedAt c c [] := by
+  simp [InsertedAt]
+
+theorem insertedAt_one {c c' : CompEditor} {x : Sym} (h : c.insert x = .ok c') : InsertedAt c c' [x] := by
+  obtain ⟨a, b, d, _⟩ := insert_at_cursor c x c' h
+  exact ⟨a, b, d⟩
+
+theorem take_insert {α : Type} (s : List α) (c : Nat) (x : α) (h : c ≤ s.length) :
+    (s.take c ++ [x] ++ s.drop c).take (c + 1) = s.take c ++ [x] ∧
+    (s.take c ++ [x] ++ s.drop c).drop (c + 1) = s.drop c := by
+  have hl : (s.take c ++ [x]).length = c + 1 := by simp [List.length_take, Nat.min_eq_left h]
+  exact ⟨List.take_left' hl, List.drop_left' hl⟩
+
+/-- `insertChars`: the characters appear, in order, exactly at the cursor; the cursor ends behind them -/
+theorem insertChars_frame (cs : List Nat) : ∀ (c c' : CompEditor), insertChars c cs = .ok c' →
+    InsertedAt c c' (cs.map Sym.chr) := by
+  induction cs with
+  | nil =>
+    intro c c' h
+    simp only [insertChars] at h; cases h
+    exact insertedAt_nil c
+  | cons x xs ih =>
+    intro c c' h
+    simp only [insertChars] at h
+    split at h
+    · next c1 h1 =>
+      obtain ⟨hs, hc, hst, hle⟩ := insert_at_cursor c (.chr x) c1 h1
+      obtain ⟨a1, a2, a3⟩ := ih c1 c' h
+      obtain ⟨t1, t2⟩ := take_insert c.symbols c.cursor (Sym.chr x) hle
+      refine ⟨?_, by rw [a2, hc]; simp; omega, by rw [a3, hst]⟩
+      rw [a1, hc, hs, t1, t2]
+      simp
+    · cases h
+    · cases h
+
+/-- effect of an arm that may only insert at the cursor: the buffer is as before (then nothing is
+    said about the transition) or `xs` was inserted at the cursor and the key is absorbed -/
+def InsStep (c0 : CompEditor) (r : StepRes D L) : Prop :=
+  ∀ sh' t, r = .ok (sh', t) → sh'.com = c0 ∨ (t = .spin .absorb ∧ ∃ xs : List Nat, InsertedAt c0 sh'.com (xs.map Sym.chr))
+
+theorem ins_withCom_one (sh : Shared D L) (x : Nat) :
+    InsStep sh.com (withCom sh (sh.com.insert (.chr x)) fun sh => .ok (sh, .spin .absorb)) := by
+  intro sh' t h
+  obtain ⟨c, hc, hk⟩ := withCom_ok h
+  injection hk with hk; injection hk with h1 h2; subst h1 h2
+  exact Or.inr ⟨rfl, [x], insertedAt_one hc⟩
+
+theorem ins_commitOrInsert (sh : Shared D L) (ch : Nat) : InsStep sh.com (commitOrInsert sh ch) := by
+  intro sh' t h
+  rcases commitOrInsert_spec h with ⟨_, rfl, _⟩ | ⟨_, ht, hi, _⟩
+  · exact Or.inl rfl
+  · exact Or.inr ⟨ht, [ch], insertedAt_one hi⟩
+
+theorem ins_inputChar (sh : Shared D L) (ev : KeyEvent) : InsStep sh.com (inputChar sh ev) := by
+  unfold inputChar fullOrBell
+  repeat' split
+  all_goals first
+    | exact ins_commitOrInsert _ _
+    | (intro sh' t h; injection h with h; injection h with h1 h2; subst h1; exact Or.inl rfl)
+
+theorem ins_chineseFallback (sh : Shared D L) (ev : KeyEvent) : InsStep sh.com (chineseFallback sh ev) := by
+  unfold chineseFallback
+  repeat' split
+  all_goals first
+    | exact ins_withCom_one _ _
+    | exact ins_inputChar _ _
+    | (intro sh' t h; injection h with h; injection h with h1 h2; subst h1; exact Or.inl rfl)
+
+/-- **the catch-all arm of `Entering::next` only ever inserts at the cursor**: after it the buffer
+    is unchanged, or some characters were inserted exactly at the cursor (cursor behind them) and
+    the key is absorbed -/
+theorem ins_enteringDefault (sh : Shared D L) (ev : KeyEvent) : InsStep sh.com (enteringDefault env sh ev) := by
+  unfold enteringDefault
+  repeat' split
+  all_goals first
+    | exact ins_withCom_one _ _
+    | exact ins_inputChar _ _
+    | exact ins_chineseFallback _ _
+    | exact ins_chineseFallback { sh with syl := (env.keyPress sh.syl ev).2 } ev
+    | (intro sh' t h; injection h with h; injection h with h1 h2; subst h1; exact Or.inl rfl)
+    | skip
+  -- easy-symbol abbreviation
+  intro sh' t h
+  obtain ⟨c, hc, hk⟩ := withCom_ok h
+  injection hk with hk; injection hk with h1 h2; subst h1 h2
+  exact Or.inr ⟨rfl, _, insertChars_frame _ _ _ hc⟩
+
+/-- **a symbol key** (any key that reaches the numlock arm or the catch-all arm of `Entering`, in
+    either language mode and character form, ±easy-symbol input): the buffer is unchanged, or
+    characters were inserted exactly at the cursor, the cursor is behind them, nothing else moved -/
+theorem symbol_key_inserts_at_cursor {e : Editor D L} {ev : KeyEvent} {sh : Shared D L} {st : St}
+    (hs : e.state = .entering) (hd : DefaultArm (preamble e.shared) ev) (h : dispatch env e ev = .ok (sh, st)) :
+    sh.com = e.shared.com ∨
+    (st = .entering ∧ sh.last = .absorb ∧ ∃ xs : List Nat, InsertedAt e.shared.com sh.com (xs.map Sym.chr)) := by
+  rw [dispatch_entering_eq env ev hs, enteringNext_default env hd] at h
+  obtain ⟨⟨sh', t⟩, hr, hx⟩ := map_ok h
+  have : InsStep (preamble e.shared).com
+      (if ev.mods.numlock = true then commitOrInsert (preamble e.shared) ev.unicode
+       else enteringDefault env (preamble e.shared) ev) := by
+    split
+    · exact ins_commitOrInsert _ _
+    · exact ins_enteringDefault env _ _
+  rcases this sh' t hr with h1 | ⟨ht, xs, hi⟩
+  · left
+    cases t <;> (simp only [applyTrans] at hx; injection hx with h2 h3; subst h2; exact h1)
+  · right
+    subst ht
+    simp only [applyTrans] at hx; injection hx with h2 h3; subst h2 h3
+    exact ⟨rfl, rfl, xs, hi⟩
+
+/-- **easy-symbol input**: a key with an abbreviation of `k` characters inserts exactly those `k`
+    characters at the cursor, in order, and the cursor advances by `k` (one pass, one key) -/
+theorem easy_symbol_expansion {e : Editor D L} {ev : KeyEvent} {sh : Shared D L} {st : St} {expanded : Text}
+    (hs : e.state = .entering) (hd : DefaultArm (preamble e.shared) ev) (hn : ev.mods.numlock = false)
+    (hl : e.shared.options.languageMode = .chinese) (he : e.shared.options.easySymbolInput = true)
+    (hg : ¬ (ev.code = KC.grave ∧ ev.mods.isNone = true)) (hsp : ev.code ≠ KC.space)
+    (ha : (e.shared.abbr.find? (fun p => p.1 == ev.unicode)).map (·.2) = some expanded)
+    (h : dispatch env e ev = .ok (sh, st)) :
+    st = .entering ∧ sh.last = .absorb ∧ InsertedAt e.shared.com sh.com (expanded.map Sym.chr) := by
+  rw [dispatch_entering_eq env ev hs, enteringNext_default env hd] at h
+  obtain ⟨⟨sh', t⟩, hr, hx⟩ := map_ok h
+  rw [if_neg (by simp [hn])] at hr
+  unfold enteringDefault at hr
+  have e1 : (preamble e.shared).options = e.shared.options := rfl
+  have e2 : (preamble e.shared).abbr = e.shared.abbr := rfl
+  rw [e1, hl] at hr
+  simp only at hr
+  rw [if_neg (by simpa using hg), if_neg (by simpa using hsp), if_pos he, e2, ha] at hr
+  simp only at hr
+  obtain ⟨c, hc, hk⟩ := withCom_ok hr
+  injection hk with hk; injection hk with h1 h2; subst h1 h2
+  simp only [applyTrans] at hx; injection hx with h2 h3; subst h2 h3
+  exact ⟨rfl, rfl, insertChars_frame _ _ _ hc⟩
+
+end EditorKeys2
+
+section EditorSyl
+variable {D L : Type} (env : Env D L)
+
+/-- the layout's answer to a key in `EnteringSyllable` (by lookup strategy): behaviour and new layout state -/
+def layoutAnswer (sh : Shared D L) (ev : KeyEvent) : LayoutBeh × L :=
+  match sh.options.lookupStrategy with
+  | .fuzzyPartialPrefix => env.fuzzyKeyPress sh.syl ev
+  | .standard => env.keyPress sh.syl ev
+
+/-- a key of `EnteringSyllable` that is handed to the phonetic layout -/
+def LayoutKey (ev : KeyEvent) : Prop :=
+  ev.code ≠ KC.backspace ∧ ev.code ≠ KC.esc ∧ ¬ (ev.code = KC.unknown ∧ ev.mods.capslock = true)
+
+theorem enteringSyllableNext_layout {sh : Shared D L} {ev : KeyEvent} (hk : LayoutKey ev) :
+    enteringSyllableNext env sh ev =
+      syllableAnswer env { sh with syl := (layoutAnswer env sh ev).2 } (layoutAnswer env sh ev).1 := by
+  obtain ⟨h1, h2, h3⟩ := hk
+  unfold enteringSyllableNext layoutAnswer
+  rw [if_neg (by simpa using h1), if_neg (by simpa using h3), if_neg (by simpa using h2)]
+  cases sh.options.lookupStrategy <;> rfl
+
+/-- **a completed syllable is inserted exactly at the cursor** — for every phonetic layout (through
+    `env`): in `EnteringSyllable`, the layout answers *Commit* and the dictionary has a word for the
+    syllable ⇒ exactly one syllable symbol is inserted at the cursor, the cursor advances by one,
+    every other symbol keeps its place.  With the simple engine the editor goes on to `Selecting`
+    (saving the new cursor), the buffer effect is the same. -/
+theorem syllable_commit_inserts_one {e : Editor D L} {ev : KeyEvent} {sh : Shared D L} {st : St}
+    (hs : e.state = .enteringSyllable) (hk : LayoutKey ev)
+    (hc : (layoutAnswer env e.shared ev).1 = .commit)
+    (hw : env.hasPhrase e.shared.dict [env.read (layoutAnswer env e.shared ev).2] e.shared.options.lookupStrategy = true)
+    (h : dispatch env e ev = .ok (sh, st)) :
+    sh.com.symbols = e.shared.com.symbols.take e.shared.com.cursor ++
+        [Sym.syl (env.read (layoutAnswer env e.shared ev).2)] ++ e.shared.com.symbols.drop e.shared.com.cursor ∧
+    sh.com.cursor = e.shared.com.cursor + 1 ∧ sh.last = .absorb ∧
+    (e.shared.options.conversionEngine ≠ .simple → st = .entering ∧ sh.com.stack = e.shared.com.stack) ∧
+    (e.shared.options.conversionEngine = .simple →
+      (∃ s, st = .selecting s) ∧ sh.com.stack = e.shared.com.stack ++ [e.shared.com.cursor + 1]) := by
+  rw [dispatch_syllable_eq env ev hs, enteringSyllableNext_layout env hk] at h
+  obtain ⟨⟨sh', t⟩, hr, hx⟩ := map_ok h
+  have ela : layoutAnswer env (preamble e.shared) ev = layoutAnswer env e.shared ev := rfl
+  rw [ela, hc] at hr
+  unfold syllableAnswer at hr
+  simp only at hr
+  have hw' : env.hasPhrase (preamble e.shared).dict [env.read (layoutAnswer env e.shared ev).2]
+      (preamble e.shared).options.lookupStrategy = true := hw
+  rw [if_pos hw'] at hr
+  obtain ⟨c, hci, hkk⟩ := withCom_ok hr
+  obtain ⟨a1, a2, a3, _⟩ := insert_at_cursor _ _ _ hci
+  dsimp only at hkk
+  split at hkk
+  · next hsim =>
+    have hsim' : e.shared.options.conversionEngine = .simple := by
+      have : (preamble e.shared).options.conversionEngine = .simple := by simpa using hsim
+      exact this
+    unfold newPhraseSimple at hkk
+    simp only at hkk
+    split at hkk
+    · injection hkk with hkk; injection hkk with h1 h2; subst h1 h2
+      simp only [applyTrans] at hx; injection hx with h2 h3; subst h2 h3
+      refine ⟨a1, a2, rfl, fun hne => absurd hsim' hne, fun _ => ⟨⟨_, rfl⟩, ?_⟩⟩
+      show c.stack ++ [c.cursor] = _
+      rw [a3, a2]; rfl
+    · cases hkk
+    · cases hkk
+  · next hsim =>
+    have hsim' : e.shared.options.conversionEngine ≠ .simple := by
+      have : (preamble e.shared).options.conversionEngine ≠ .simple := by simpa using hsim
+      exact this
+    injection hkk with hkk; injection hkk with h1 h2; subst h1 h2
+    simp only [applyTrans] at hx; injection hx with h2 h3; subst h2 h3
+    exact ⟨a1, a2, rfl, fun _ => ⟨rfl, a3⟩, fun hq => absurd hq hsim'⟩
+
+/-- without a word for the syllable nothing is inserted (the phonetic buffer is dropped) -/
+theorem syllable_commit_no_word {e : Editor D L} {ev : KeyEvent} {sh : Shared D L} {st : St}
+    (hs : e.state = .enteringSyllable) (hk : LayoutKey ev)
+    (hc : (layoutAnswer env e.shared ev).1 = .commit)
+    (hw : env.hasPhrase e.shared.dict [env.read (layoutAnswer env e.shared ev).2] e.shared.options.lookupStrategy = false)
+    (h : dispatch env e ev = .ok (sh, st)) :
+    sh.com = e.shared.com ∧ st = .entering := by
+  rw [dispatch_syllable_eq env ev hs, enteringSyllableNext_layout env hk] at h
+  obtain ⟨⟨sh', t⟩, hr, hx⟩ := map_ok h
+  have ela : layoutAnswer env (preamble e.shared) ev = layoutAnswer env e.shared ev := rfl
+  rw [ela, hc] at hr
+  unfold syllableAnswer at hr
+  simp only at hr
+  have hw' : env.hasPhrase (preamble e.shared).dict [env.read (layoutAnswer env e.shared ev).2]
+      (preamble e.shared).options.lookupStrategy = false := hw
+  rw [if_neg (by simp [hw'])] at hr
+  injection hr with hr; injection hr with h1 h2; subst h1 h2
+  simp only [applyTrans] at hx; injection hx with h2 h3; subst h2 h3
+  exact ⟨rfl, rfl⟩
+
+end EditorSyl
+
 end Chewing.C05
